@@ -62,6 +62,13 @@ class C19(Prop):
             elif k == 6:
                 text += "'bad head'(a).\n"
                 mode = 'refused'
+            elif k == 4:
+                text = '\ufeff' + text          # a byte order mark: not in the lexicon, for files and for standard input alike
+                mode = 'bom'
+            elif k == 3:
+                # directives are compiled to nothing, whatever they contain - also predicate indicators name/arity
+                text = src.pick([":- dynamic(seen/1).\n", ":- import('', [eval/1]).\n", ":- d.\n:- export(p/2).\n"]) + text
+                mode = 'directive'
             elif k == 5:
                 # the text does not end in a line break: after a full stop, or inside a % comment
                 text = text.rstrip('\n') + src.pick(['', ' % remark', '\n% end', ' '])
@@ -209,6 +216,23 @@ class C19(Prop):
         classes.add('outfile' if case['outfile'] else 'stdout')
         classes.add('all-compile' if all_ok else 'some-source-fails')
         return OK(special or len(sources) >= 2 or stdin_bytes is not None, sorted(classes))
+
+
+    def extra_checks(self, tier, seed):
+        """every .prolog file of the repository (compiler/test, tests/data) as a single source under all 16 flag
+        combinations"""
+        import glob
+        out = []
+        files = sorted(glob.glob(os.path.join(impl.REPO, 'compiler', 'test', '*.prolog')) + glob.glob(os.path.join(impl.REPO, 'tests', 'data', '*.prolog')))
+        for fn in files:
+            try:
+                text = open(fn, encoding='utf8', newline='').read()
+            except Exception:      # noqa
+                continue
+            case = {'sources': [{'text': text, 'mode': 'repository-file:' + os.path.relpath(fn, impl.REPO), 'errline': None, 'stdin': False}],
+                    'outfile': False, 'subprocess': False, 'stale_outfile': 0}
+            out.append((case, self.decide(case)))
+        return out
 
 
 PROP = C19()
